@@ -436,6 +436,10 @@ def pred(case, out):
     want_rk = None if rk is None else uuid.UUID(bytes_le=bytes(rk))
     want = (ref_target_sd(sid), want_rk, l0, l1, l2) if op == 0 else (ref_target_sd(sid), want_rk, -1, -1, -1)
     for tr, f in zip(outs, facts):
+        if conforming and "getkey" in f:
+            sd, grk, g0, g1, g2 = f["getkey"]
+            if (bytes(sd), grk, g0, g1, g2) != want:
+                return f"GetKey asked for (sd[{len(sd)}], {grk}, {g0}, {g1}, {g2}) instead of (sd[{len(want[0])}], {want[1]}, {want[2]}, {want[3]}, {want[4]})"
         if f["violations"]:
             return "the reference DC saw a non-conforming client: " + "; ".join(f["violations"])[:300]
         if not conforming:
@@ -444,9 +448,6 @@ def pred(case, out):
             continue
         if "getkey" not in f:
             return f"no GetKey request reached the DC (outcome {tr[8]})"
-        sd, grk, g0, g1, g2 = f["getkey"]
-        if (bytes(sd), grk, g0, g1, g2) != want:
-            return f"GetKey asked for (sd[{len(sd)}], {grk}, {g0}, {g1}, {g2}) instead of (sd[{len(want[0])}], {want[1]}, {want[2]}, {want[3]}, {want[4]})"
         if len(f["getkey_calls"]) != 1:
             return f"{len(f['getkey_calls'])} GetKey calls in one operation"
         if f["level"] != 6:
